@@ -7,7 +7,8 @@ from .. import common as C
 from .. import tys as T
 from ..tys import Field, Variant, Item
 
-THEOREMS = ["c16_never_accepted", "c16_container_rejected", "c16_field_attrs_rejected", "c16_variant_attrs_rejected"]
+THEOREMS = ["c16_never_accepted", "c16_container_rejected", "c16_field_attrs_rejected", "c16_variant_attrs_rejected",
+            "c16_accepted_reads_attrs", "c16_container_no_override", "c16_variant_no_override", "c16_field_no_override"]
 
 REJ = os.path.join(C.VERIF, "harness_reject")
 
